@@ -36,9 +36,11 @@ type eqCheck struct {
 	ival []map[*sym.Term]*big.Int
 	rval []map[*ref.N]*big.Int
 
-	cutRef  map[*sym.Term]*ref.N // proven: impl term == ref node (mod p)
-	cutImpl map[*ref.N]*sym.Term
-	sigIdx  map[string][]*ref.N
+	cutRef    map[*sym.Term]*ref.N // proven: impl term == ref node (mod p)
+	cutImpl   map[*ref.N]*sym.Term
+	sigIdx    map[string][]*ref.N
+	opaqueIdx map[string][]*ref.N
+	constCut  map[*sym.Term]*big.Int // atoms proved equal to a constant
 
 	ipoly map[*sym.Term]poly.Poly
 	rpoly map[*ref.N]poly.Poly
@@ -51,8 +53,8 @@ type eqCheck struct {
 }
 
 func newEqCheck(r *Run, name, family string, e *sym.Ctx, rb *ref.B) *eqCheck {
-	q := &eqCheck{r: r, name: name, family: family, e: e, rb: rb, rounds: 3, seed: r.Seed,
-		top: map[*sym.Term]bool{}, cutRef: map[*sym.Term]*ref.N{}, cutImpl: map[*ref.N]*sym.Term{}, ipoly: map[*sym.Term]poly.Poly{}, rpoly: map[*ref.N]poly.Poly{}, byID: map[int]*sym.Term{}}
+	q := &eqCheck{r: r, name: name, family: family, e: e, rb: rb, rounds: 4, seed: r.Seed,
+		constCut: map[*sym.Term]*big.Int{}, top: map[*sym.Term]bool{}, cutRef: map[*sym.Term]*ref.N{}, cutImpl: map[*ref.N]*sym.Term{}, ipoly: map[*sym.Term]poly.Poly{}, rpoly: map[*ref.N]poly.Poly{}, byID: map[int]*sym.Term{}}
 	for i := 0; i < q.rounds+edgeRounds; i++ {
 		q.ival = append(q.ival, map[*sym.Term]*big.Int{})
 		q.rval = append(q.rval, map[*ref.N]*big.Int{})
@@ -80,6 +82,16 @@ func (q *eqCheck) envVal(round int, a *sym.Term) *big.Int {
 		case 4:
 			return new(big.Int).Set(a.Hi)
 		}
+	}
+	if a.Hi.Cmp(big.NewInt(1)) == 0 && round < q.rounds {
+		// bits: pseudo-random in even rounds, the complement in the following odd round, so that
+		// every bit takes both values among the candidate-matching rounds
+		h := sha256.Sum256([]byte(fmt.Sprintf("bit|%d|%d|%s", q.seed, round/2, a.Name)))
+		v := int64(h[0] & 1)
+		if round%2 == 1 {
+			v = 1 - v
+		}
+		return big.NewInt(v)
 	}
 	h := sha256.New()
 	var buf [8]byte
@@ -202,7 +214,10 @@ func (q *eqCheck) modOf(big_ bool) *big.Int {
 func (q *eqCheck) implSig(t *sym.Term) string {
 	var sb strings.Builder
 	for i := 0; i < q.rounds; i++ {
-		v := new(big.Int).Mod(q.implEval(i, t), q.modOf(t.Op == sym.OpUF && t.Hi.Cmp(sym.Pm1) > 0))
+		// values living in F_r (BN254 hashes: atoms / hash outputs ranging over [0,r), constants >= p)
+		// are compared modulo r, Goldilocks values modulo p
+		bigv := ((t.Op == sym.OpUF || t.Op == sym.OpAtom) && t.Hi.Cmp(sym.Rm1) == 0) || (t.Op == sym.OpConst && t.C.Cmp(P) >= 0)
+		v := new(big.Int).Mod(q.implEval(i, t), q.modOf(bigv))
 		sb.WriteString(v.Text(36))
 		sb.WriteByte('|')
 	}
@@ -216,6 +231,32 @@ func (q *eqCheck) refSig(n *ref.N) string {
 		sb.WriteByte('|')
 	}
 	return sb.String()
+}
+
+// filterByEdge keeps the candidates that also agree with t on the edge rounds (used when several
+// reference nodes share the candidate-matching signature).
+func (q *eqCheck) filterByEdge(t *sym.Term, cands []*ref.N) []*ref.N {
+	if len(cands) <= 1 {
+		return cands
+	}
+	var out []*ref.N
+	for _, n := range cands {
+		ok := true
+		for i := q.rounds; i < q.rounds+edgeRounds; i++ {
+			m := q.modOf(n.BigMod)
+			if new(big.Int).Mod(q.implEval(i, t), m).Cmp(q.refEval(i, n)) != 0 {
+				ok = false
+				break
+			}
+		}
+		if ok {
+			out = append(out, n)
+		}
+		if len(out) >= 6 {
+			break
+		}
+	}
+	return out
 }
 
 func (q *eqCheck) indexRef() {
@@ -257,7 +298,10 @@ func (q *eqCheck) implPoly(t *sym.Term, open map[*sym.Term]bool, memo map[*sym.T
 		p = poly.Const(q.liftConst(t.C))
 	case sym.OpAtom:
 		_, proven := q.cutRef[t]
+		cv, isConst := q.constCut[t]
 		switch {
+		case isConst && !q.top[t] && !open[t]:
+			p = poly.Const(q.liftConst(cv))
 		case t.Def != nil && (!proven || open[t]):
 			p, err = q.implPoly(t.Def, open, memo)
 		default:
@@ -414,7 +458,9 @@ func (pe *pairEmitter) impl(t *sym.Term) string {
 		s = smtLit(pe.q.liftConst(t.C))
 	case sym.OpAtom:
 		_, proven := pe.q.cutRef[t]
-		if t.Def != nil && (!proven || pe.open[t]) {
+		if cv, isConst := pe.q.constCut[t]; isConst && !pe.q.top[t] && !pe.open[t] {
+			s = smtLit(pe.q.liftConst(cv))
+		} else if t.Def != nil && (!proven || pe.open[t]) {
 			s = pe.impl(t.Def)
 		} else {
 			s = pe.declare(t)
@@ -598,7 +644,35 @@ func (q *eqCheck) sweepDefs(defs []*sym.Term) {
 		if _, done := q.cutRef[m]; done {
 			continue
 		}
-		cands := q.sigIdx[q.implSig(m)]
+		if m.Def != nil {
+			q.resolveOpaques(m.Def)
+		} else if len(m.Aux) == 1 {
+			q.resolveOpaques(m.Aux[0])
+		}
+		// constant sweeping: an atom whose value is the same constant at all sample points is
+		// first tried against that constant
+		if m.Def != nil {
+			v0 := new(big.Int).Mod(q.implEval(0, m), q.modOf(false))
+			same := true
+			for i := 1; i < q.rounds; i++ {
+				if new(big.Int).Mod(q.implEval(i, m), q.modOf(false)).Cmp(v0) != 0 {
+					same = false
+				}
+			}
+			if same {
+				cn := q.rb.Const(v0)
+				q.Tried++
+				if q.bigMod {
+					cn = q.rb.ConstR(v0)
+				}
+				if q.provePair(fmt.Sprintf("cut-const#%d", m.ID), m, cn) {
+					q.constCut[m] = v0
+					q.Proved++
+					continue
+				}
+			}
+		}
+		cands := q.filterByEdge(m, q.sigIdx[q.implSig(m)])
 		if len(cands) == 0 {
 			if os.Getenv("VERIF_SWEEPDBG") == "2" {
 				fmt.Fprintf(os.Stderr, "  no reference node has the signature of %s (%s) site %s\n", m.Name, m.Kind, firstFrame(m.Site))
@@ -647,7 +721,40 @@ func (q *eqCheck) matchOpaque(t *sym.Term) bool {
 	if q.sigIdx == nil {
 		q.indexRef()
 	}
-	for _, n := range q.sigIdx[q.implSig(t)] {
+	// candidates: reference nodes of the same kind whose ARGUMENTS have the signatures of the
+	// implementation's arguments (the value of an IsZero / hash node itself discriminates poorly)
+	if q.opaqueIdx == nil {
+		q.opaqueIdx = map[string][]*ref.N{}
+		for _, n := range q.rb.All {
+			switch n.Op {
+			case ref.OIsZero:
+				k := "isz|" + q.refSig(n.A)
+				q.opaqueIdx[k] = append(q.opaqueIdx[k], n)
+			case ref.OUF:
+				k := fmt.Sprintf("uf|%s|%d", n.Name, n.Idx)
+				for _, a := range n.Args {
+					k += "|" + q.refSig(a)
+				}
+				q.opaqueIdx[k] = append(q.opaqueIdx[k], n)
+			}
+		}
+	}
+	var key string
+	if t.Op == sym.OpIsZero {
+		key = "isz|" + q.implSig(t.Args[0])
+	} else {
+		key = fmt.Sprintf("uf|%s|%d", t.Name, t.Idx)
+		for _, a := range t.Args {
+			key += "|" + q.implSig(a)
+		}
+	}
+	if os.Getenv("VERIF_SWEEPDBG") == "2" && len(q.opaqueIdx[key]) == 0 {
+		fmt.Fprintf(os.Stderr, "  matchOpaque: no reference %s node whose arguments have the signatures of o%d (%s_%d, %d args)\n", t.Op, t.ID, t.Name, t.Idx, len(t.Args))
+	}
+	for ci, n := range q.opaqueIdx[key] {
+		if ci >= 3 {
+			break
+		}
 		switch {
 		case t.Op == sym.OpIsZero && n.Op == ref.OIsZero:
 			if q.equal(fmt.Sprintf("iszero-arg#%d", t.ID), t.Args[0], n.A) {
@@ -671,9 +778,8 @@ func (q *eqCheck) matchOpaque(t *sym.Term) bool {
 	return false
 }
 
-// equal proves impl term == ref node, first resolving opaque sub-terms.
-func (q *eqCheck) equal(label string, t *sym.Term, n *ref.N) bool {
-	// opaque terms below t must be cut first
+// resolveOpaques establishes cuts for the IsZero / UF terms below t (down to proven cut atoms).
+func (q *eqCheck) resolveOpaques(t *sym.Term) {
 	var opaque []*sym.Term
 	seen := map[*sym.Term]bool{}
 	var walk func(x *sym.Term)
@@ -700,6 +806,12 @@ func (q *eqCheck) equal(label string, t *sym.Term, n *ref.N) bool {
 	for _, o := range opaque {
 		q.matchOpaque(o)
 	}
+	return
+}
+
+// equal proves impl term == ref node, first resolving opaque sub-terms.
+func (q *eqCheck) equal(label string, t *sym.Term, n *ref.N) bool {
+	q.resolveOpaques(t)
 	if t.Op == sym.OpIsZero || t.Op == sym.OpUF {
 		if c, ok := q.cutRef[t]; ok && c == n {
 			return true
@@ -711,6 +823,9 @@ func (q *eqCheck) equal(label string, t *sym.Term, n *ref.N) bool {
 // output proves an output pair; on failure it looks for a sample point where the two sides differ
 // and returns it (nil, false = could not decide).
 func (q *eqCheck) output(label string, t *sym.Term, n *ref.N) (ok bool, diffRound int) {
+	// cut points at the non-linear API-level nodes above the atoms (e.g. products of selector bits)
+	q.resolveOpaques(t)
+	q.sweepTerms([]*sym.Term{t})
 	if q.equal("out:"+label, t, n) {
 		return true, -1
 	}
@@ -770,7 +885,7 @@ func (q *eqCheck) sweepTerms(roots []*sym.Term) {
 		if _, done := q.cutRef[t]; done {
 			continue
 		}
-		cands := q.sigIdx[q.implSig(t)]
+		cands := q.filterByEdge(t, q.sigIdx[q.implSig(t)])
 		if len(cands) == 0 {
 			continue
 		}
